@@ -256,12 +256,22 @@ Definition chk_row_C05 : rowchk := fun key coll x op pre resp evs post =>
             else true
         | _, _, None => false
         end
-      else true).
+      else true)
+  (* ... and so does every live event of the call: it says deletion iff the document it leaves has no body *)
+  && forallb (fun f => Bool.eqb (if fopcode_eq_dec (f_op f) FDeletion then true else false) (negb (has_body post))) evs.
 
 (* C06: insert-only writes succeed iff the key has no body; refused => untouched;
    WriteWithXattrs with CAS 0 succeeds only if the key does not exist at all *)
+(* a call that names no version, or insists that there be none - whatever else it asks for (the append option too) *)
+Definition insists_absent (op : kop) : bool :=
+  match op with
+  | KWriteCas _ cas _ _ _ addonly => addonly || (cas =? 0)
+  | _ => is_insert op
+  end.
+
 Definition chk_row_C06 : rowchk := fun key coll x op pre resp evs post =>
-  (if is_insert op then
+  (if insists_absent op && mutated op resp then negb (has_body pre) else true)
+  && (if is_insert op then
      (if mutated op resp then negb (has_body pre) else true)
      && (if is_refusal resp then has_body pre && same_view pre post else true)
    else true)
@@ -429,6 +439,20 @@ Definition kv_chk_explain (t : scase * list ostep) : list (string * option N) :=
 
 Definition fevents_eqb (a b : list fevent) : bool := if list_eq_dec fevent_eq_dec a b then true else false.
 Definition obsrow_eqb (a b : obsrow) : bool := if obsrow_eq_dec a b then true else false.
+
+(* the frame of a key-value call in full: every document but the addressed one - in its own collection and in every
+   other - reads back exactly as before: body, CAS, expiry, every xattr, revision, what a dump says of it *)
+Definition chk_step_frame_full : step_chk := fun prev x o ob =>
+  match o with
+  | SKv c k _ =>
+      forallb (fun e => sspair_eqb (fst e) (c, k)
+                        || match look (fst e) (sn_rows prev) with Some o0 => obsrow_eqb o0 (snd e) | None => true end)
+              (sn_rows (os_snap ob))
+  | _ => true
+  end.
+
+Definition chk_C07_full (t : scase * list ostep) : bool :=
+  chk_C07_kv t && walk chk_step_frame_full (snap0 (fst t)) (sc_steps (fst t)) (snd t).
 
 Definition real_xattrs (xs : list (string * string)) : list (string * string) :=
   filter (fun kv => negb (String.eqb (fst kv) "$document" || String.eqb (fst kv) "$document.revid")) xs.
